@@ -20,6 +20,11 @@ QUICK = [
     ("updatedisable_vs_finish", False, True, [["update", "disable"], ["finish"]]),
     ("disable_vs_disable", False, True, [["disable"], ["disable"]]),
     ("manual_ticks", False, True, [["tick", "tick", "tick"], []]),
+    # manual ticks from two threads at once while a ticker is installed: none of them may advance the spinner
+    ("manual_two_threads", False, True, [["tick", "tick"], ["tick"]]),
+    # a ticker for a bar that is finished already (the thread exits at once; nobody may wait for a frame of it)
+    ("finish_then_enable", False, False, [["finish", "enable", "tick"], ["tick"]]),
+    ("finish_vs_enable", False, True, [["finish"], ["enable"]]),
     ("multi_tick_vs_remove", True, False, [["tick"], ["mp_remove"]]),
     ("multi_remove_vs_finish_ticker", True, True, [["finish"], ["mp_remove"]]),
     ("multi_remove_println_mpprintln", True, False, [["mp_remove"], ["println"], ["mp_println"]]),
@@ -130,7 +135,7 @@ def conformance(pid, models, runs):
 def prog_json(p, sched):
     return {"setup": {"multi": p["multi"], "bars": 1, "ticker": [1] if p["tk"] else []},
             "threads": [[{"op": c, "b": 1} for c in caller] for caller in p["callers"]],
-            "schedule": sched, "spincheck": p["name"] == "manual_ticks", "program": p["name"]}
+            "schedule": sched, "spincheck": p["name"].startswith("manual_"), "program": p["name"]}
 
 
 def c08(pid, tier, seed):
